@@ -112,17 +112,19 @@ def check_settings(prog: Program, rep, rule: str) -> None:
     # limits -> termination guard of _integrate
     F = IntegrateFacts(prog)
     lm = _locals_from_config(integ)
-    guard = None
-    for n in ast.walk(F.loop):
-        if isinstance(n, ast.If) and any(isinstance(x, ast.Raise) for x in ast.walk(n)) and \
-                any(isinstance(x, ast.Call) and isinstance(x.func, ast.Name) and x.func.id == 'RangeError'
-                    for x in ast.walk(n)):
-            guard = n
-            break
-    if guard is None:
-        raise AnalysisError('_integrate: termination guard (if ...: raise RangeError) not found in the loop')
-    for fld in _fields_in(guard.test, integ, lm):
-        reached[fld] = f'termination guard at line {guard.lineno}'
+    from .flow import LimitBlock
+    LB = LimitBlock(F)
+    # hoisted predicates: a name tested in the block stands for what its single definition in the block reads
+    block_defs = {}
+    for st_ in LB.stmts:
+        if isinstance(st_, ast.Assign) and len(st_.targets) == 1 and isinstance(st_.targets[0], ast.Name):
+            block_defs[st_.targets[0].id] = st_.value
+    for t_ in LB.tests:
+        ta = F.cfg.nodes[t_].ast
+        exprs = [ta] + [block_defs[n.id] for n in ast.walk(ta) if isinstance(n, ast.Name) and n.id in block_defs]
+        for e_ in exprs:
+            for fld in _fields_in(e_, integ, lm):
+                reached[fld] = f'termination test at line {F.cfg.nodes[t_].line}'
     # accuracy and iteration cap -> zero finder loop
     zl = _locals_from_config(zero)
     zloops = [n for n in ast.walk(zero.node) if isinstance(n, ast.While)]
